@@ -34,3 +34,5 @@ import Tranp.Lemmas.AstPath.Expand
 import Tranp.Lemmas.AstPath.Memo
 import Tranp.Lemmas.AstPath.PathAlgebra
 import Tranp.Lemmas.AstPath.Relativefy
+import Tranp.Lemmas.AstPath.Depth
+import Tranp.Lemmas.AstPath.Find
